@@ -232,6 +232,25 @@ reg('C07', 'model_checking',
     'against a reference model', 'E2-history-bfs')
 
 
+reg('C16', 'model_checking',
+    'Breadth-first search over move/update histories (depth 2 quick, 3 '
+    'thorough) on real InletBase/OutletBase objects with their compiled '
+    'IOEvaluate evaluators: 12 displacement patterns per round (whole '
+    'arrays, single particles; forward, backward, more than a zone length) '
+    'followed by inlet.update and outlet.update with the stage active or '
+    'not; 4 initial populations x 7 flow directions in 1-3 D (including '
+    'normals with three different components) x props_to_copy none/subset '
+    'x with/without ghost inlet. After every transition all three arrays '
+    'are compared, as multisets of whole particle records, with a '
+    'bookkeeping reference model, and fluid count = initial + entered - '
+    'left is asserted.',
+    'Trusted: the bookkeeping model; states with a particle exactly on an '
+    'interface plane are not generated (either outcome allowed). The '
+    'SimpleInletOutlet managers around these classes are not driven.',
+    'explicit-state BFS over operation histories of the real objects '
+    'against a reference model', 'E2-history-bfs')
+
+
 def main():
     props = [json.loads(l) for l in open(os.path.join(V, 'properties.jsonl'))]
     checks = []
